@@ -90,8 +90,20 @@ def appendCheck (fs : List Field) (x : Field) : List Field :=
   fs.map (fun f => if f.name = x.name ∧ x.depth < f.depth then { f with isShadowed := true } else f)
     ++ [{ x with isShadowed := x.isShadowed || fs.any (fun f => f.name = x.name ∧ f.depth < x.depth) }]
 
+/-- names of the top-level fields that are left out (`_`-prefixed / `new:"-"`): they still hide promoted
+    fields of the same name (1100e1f) -/
+def hiddenTop : Tree → List String
+  | .nil => []
+  | .field f rest => (if f.skip then [f.name] else []) ++ hiddenTop rest
+  | .embed _ _ _ _ _ rest => hiddenTop rest
+
+/-- the deferred pass of extractTopFiels: promoted entries named like a left-out top-level field -/
+def hideBy (hidden : List String) (f : Field) : Field :=
+  if 0 < f.depth ∧ hidden.contains f.name then { f with isShadowed := true } else f
+
 /-- the generator's `g.fields` -/
-def flatten (t : Tree) : List Field := (walkTop noShadow t).foldl appendCheck []
+def flatten (t : Tree) : List Field :=
+  ((walkTop noShadow t).foldl appendCheck []).map (hideBy (hiddenTop t))
 
 def goKeywords : List String :=
   ["break", "case", "chan", "const", "continue", "default", "defer", "else", "fallthrough", "for",
@@ -103,10 +115,25 @@ def paramName (n : String) : String :=
   let c := camelS n
   if goKeywords.contains c then c ++ "_" else c
 
-/-- `nameMap` of makeNew, as a function: keyed by field *name* -/
+/-- which entries makeNew gives a parameter: not shadowed, not a marker, marked when any field is marked -/
+def condNew (hasNew : Bool) (f : Field) : Bool := !f.isShadowed && !f.isEmbeded && !(hasNew && !f.isNew)
+
+/-- `for usedParams[param] { param += "_" }` (8a16c3f); fuel = number of names taken + 1 -/
+def fresh : Nat → List String → String → String
+  | 0, _, p => p
+  | k + 1, used, p => if used.contains p then fresh k used (p ++ "_") else p
+
+/-- makeNew's loop: (field name, parameter name) in order of the field list -/
+def assignParams (hasNew : Bool) : List Field → List (String × String) → List (String × String)
+  | [], acc => acc
+  | f :: fs, acc =>
+    if condNew hasNew f then
+      assignParams hasNew fs (acc ++ [(f.name, fresh (acc.length + 1) (acc.map (·.2)) (paramName f.name))])
+    else assignParams hasNew fs acc
+
+/-- `nameMap` of makeNew, as a function: keyed by field *name* (a Go map: the last write wins) -/
 def nameMap (hasNew : Bool) (fs : List Field) (n : String) : Option String :=
-  if fs.any (fun f => f.name = n ∧ !f.isShadowed ∧ !f.isEmbeded ∧ !(hasNew ∧ !f.isNew))
-  then some (paramName n) else none
+  (assignParams hasNew fs []).reverse.lookup n
 
 /-- `newParamsList`: (parameter name, printed type) -/
 def paramsList (nm : String → Option String) (fs : List Field) : List (String × String) :=
